@@ -11,7 +11,7 @@ import time
 import z3
 
 from pv import classes, smt, source
-from pv.contract import REG, FIELDS, THEORIES, SPECFNS, CLASS_INV, FIELD_VIEWS, load_all
+from pv.contract import REG, FIELDS, THEORIES, SPECFNS, CLASS_INV, FIELD_VIEWS, EXT_CLASSES, load_all
 from pv.core import Ob, DISCHARGED, REFUTED, UNDECIDED
 from pv.evalx import Evaluator, from_py, lit_of, EMPTY_DICT
 from pv.source import BindingError
@@ -248,6 +248,8 @@ class Engine:
                 for k in c.__mro__:
                     if (k.__name__, attr) in FIELDS:
                         return FIELDS[(k.__name__, attr)]
+            elif (cls, attr) in FIELDS:          # a class outside the package (ext_class)
+                return FIELDS[(cls, attr)]
         return FIELDS.get(attr)
 
     def storage(self, cls, attr):
@@ -261,6 +263,8 @@ class Engine:
                         if FIELDS.get(attr) == FIELDS[(k.__name__, attr)]:
                             return attr          # same kind as the global declaration: one shared map
                         return '%s.%s' % (k.__name__, attr)
+            elif (cls, attr) in FIELDS and FIELDS.get(attr) != FIELDS[(cls, attr)]:
+                return '%s.%s' % (cls, attr)
         return attr
 
     def read_field(self, st, ref, attr, kind):
@@ -355,6 +359,10 @@ class Engine:
     def get_attr(self, st, recv, attr):
         if isinstance(recv, VRef) and recv.cls in ('re.Pattern', 're.Match'):
             return self._re_attr(st, recv, attr)
+        if isinstance(recv, VRef) and recv.cls in EXT_CLASSES and attr in EXT_CLASSES[recv.cls][1]:
+            # a method of a class outside the package: used through its assumed (trusted) contract
+            st.may_raise(recv.t == 0, 'AttributeError', 'None.%s' % attr)
+            return VFn('bound', recv=recv, qual='ext:%s.%s.%s' % (EXT_CLASSES[recv.cls][0], recv.cls, attr), name=attr)
         if isinstance(recv, VRef):
             cls = recv.cls
             kind, dcls, obj = classes.lookup(cls, attr) if cls else ('none', None, None)
